@@ -178,3 +178,24 @@ prop('C02',
      level_text=("Differential validation in both directions against an independent encoder and strict decoder of the VOL format over generated archives, under ASan/UBSan; exploration."),
      technique="differential property-based testing against an independent format encoder/strict decoder (rapidcheck + libFuzzer), configuration sweep",
      design_ref="DESIGN.md section 3, C02")
+
+prop('C05',
+     quick=dict(sweep=True, pbt=(6000, 400, 10), fuzz=(30000, 700, 5)),
+     thorough=dict(sweep=True, pbt=(300000, 600, 10), fuzz=(3000000, 900, 6), stage_timeout=3400),
+     floor=dict(quick=12000, thorough=300000), alloc_cap_mb=128,
+     rule=("Sweep over 5 reference-encoded VOL seeds (empty, 1 member, 4 members incl. zero-length and LZH, unused trailing slots, extra name padding), 3 CLM seeds and 6 WAV seeds: "
+           "every proper prefix; every 32-bit field (section lengths, name-table length, every index field, VBLK headers; CLM version/format/count/name/offset/length; RIFF and chunk "
+           "lengths) x {0,1,2,13,14,15,v-1,v+1,v^2^31,file size +-1,file size-8,2^31-1,2^31,0xFFFFFFF8,0xFFFFFFFF,...}; coordinated pairs (index length +1..28, name table shortened "
+           "by 1..n, NUL terminators removed so that entries outnumber names). pbt/fuzz: tape = kind + seed + 1..3 mutations (field boundary value, truncate, byte, insert, delete, "
+           "append) + up to 24 call records (GetCount, GetName, GetSize, GetCompressionCode, GetIndex, Contains, OpenStream+read, ExtractFile; index 0..8, 2^32-1, 2^64-1..) followed by "
+           "the full call table for indices 0..7 twice; libFuzzer also mutates raw archive/WAV bytes from the seed corpus. Oracle: no sanitizer report, no reproduced hang, only "
+           "std::exception; every call outcome on the long-lived object equals the outcome of the same call on a fresh object (failed calls leave it usable); indices >= count refused; "
+           "a delivered member stream/extraction is exactly file[offset+8,+VBLK length) (CLM: [dataOffset,+dataLength)) per the harness' own parse, and a recorded extent outside the "
+           "file is never delivered; WAV bytes given to CLM creation end in an error or a re-openable archive. Non-trivial = archive opens and a per-member call succeeds after "
+           "another failed, or a corruption rejected beyond the first tag check; distinct = hash of bytes and calls."),
+     sweep_what="all prefixes and (field x boundary value) substitutions of 5 VOL + 3 CLM + 6 WAV seeds, coordinated index/name-table corruptions",
+     assumptions=["allocation requests above 128 MiB fail with std::bad_alloc (memory-limited host)", "ExtractAllFiles is only exercised when the harness' own parse shows every member name to be harmless"],
+     title="VOL/CLM readers and WAV intake are safe on arbitrary bytes",
+     level_text=("Fault-injection sweeps plus structure-aware and raw-byte fuzzing with differential (fresh-object) and extent oracles under ASan/UBSan with watchdog; exploration."),
+     technique="structure-aware + coverage-guided fuzzing (libFuzzer), rapidcheck mutation plans, exhaustive prefix/field-boundary sweeps, fresh-object differential oracle, ASan/UBSan",
+     design_ref="DESIGN.md section 3, C05")
